@@ -331,6 +331,36 @@ theorem force_under (fuel : Nat) (p : Path) (cl : Closure) (st : MSt) (hcl : Und
         · simp only [hnn, Bool.false_eq_true, if_false]; exact ⟨h1', hleaf⟩
       | fuelOut => exact ⟨h1', fun _ h => by cases h⟩
 
+/-- the loop at a dethunk site: under `p` as long as the forcing function is -/
+theorem forceLoop_under {frc : Closure → MSt → Res PVal × MSt}
+    (hf : ∀ p cl st, Under p cl → EvExt p st (frc cl st).2 ∧ ∀ x, (frc cl st).1 = .ok x → x.AllCl (Under p)) (p : Path) :
+    ∀ (n : Nat) (v : PVal) (st : MSt), v.AllCl (Under p) →
+    EvExt p st (forceLoop frc n v st).2 ∧ ∀ x, (forceLoop frc n v st).1 = .ok x → x.AllCl (Under p)
+  | 0, v, st, _ => by simp only [forceLoop]; exact ⟨.refl _ _, fun _ h => by cases h⟩
+  | n + 1, .leaf j, st, hv => by
+    simp only [forceLoop]; exact ⟨.refl _ _, fun x h => by simp only [Res.ok.injEq] at h; subst h; exact hv⟩
+  | n + 1, .list xs, st, hv => by
+    simp only [forceLoop]; exact ⟨.refl _ _, fun x h => by simp only [Res.ok.injEq] at h; subst h; exact hv⟩
+  | n + 1, .obj fs, st, hv => by
+    simp only [forceLoop]; exact ⟨.refl _ _, fun x h => by simp only [Res.ok.injEq] at h; subst h; exact hv⟩
+  | n + 1, .deferred cl, st, hv => by
+    simp only [forceLoop]
+    have ha := hf p cl st (allCl_deferred.1 hv)
+    generalize frc cl st = z at ha ⊢
+    obtain ⟨r1, st1⟩ := z
+    obtain ⟨h1, h2⟩ := ha
+    simp only at h1 h2
+    cases r1 with
+    | ok x =>
+      obtain ⟨h3, h4⟩ := forceLoop_under hf p n x st1 (h2 x rfl)
+      exact ⟨h1.trans h3, h4⟩
+    | fail => exact ⟨h1, fun _ h => by cases h⟩
+    | fuelOut => exact ⟨h1, fun _ h => by cases h⟩
+
+theorem forceAll_under (fuel : Nat) (p : Path) (cl : Closure) (st : MSt) (hcl : Under p cl) :
+    EvExt p st (forceAll c alt fuel cl st).2 ∧ ∀ x, (forceAll c alt fuel cl st).1 = .ok x → x.AllCl (Under p) :=
+  forceLoop_under (fun p cl st h => force_under fuel p cl st h) p fuel (.deferred cl) st (allCl_deferred.2 hcl)
+
 end path
 
 /-! ## the depth-first pass stays under the position -/
@@ -524,9 +554,9 @@ theorem mRootMut_serial (c : Ctx) (alt : Alt) (dfuel : Nat) (rt : String) :
         | fuelOut => exact stop d1 st1 e1 u1
         | ok v =>
           simp only
-          have hd := (dfsU (frc := force c alt dfuel) (fun p cl st h => force_under dfuel p cl st h) dfuel).val
+          have hd := (dfsU (frc := forceAll c alt dfuel) (fun p cl st h => forceAll_under dfuel p cl st h) dfuel).val
             [.key fp.key] v st1 (hcl v rfl)
-          generalize dfsVal (force c alt dfuel) dfuel v st1 = z2 at hd ⊢
+          generalize dfsVal (forceAll c alt dfuel) dfuel v st1 = z2 at hd ⊢
           obtain ⟨r2, st2⟩ := z2
           obtain ⟨⟨d2, e2, u2⟩, _⟩ := hd
           simp only at e2
